@@ -17,16 +17,21 @@ import (
 )
 
 // PoolSize is the number of tables Pool builds.
-const PoolSize = 7
+const PoolSize = 8
 
 // Pool ingests tables that share blocks pairwise: five 300-row (2-block) variants differing in a
 // row of the second block, of the first block, in both, or everywhere (that one with an empty last cell at the end of each block), plus a 255-row and a 510-row
-// table (row counts that are exact multiples of the block size).
+// table (row counts that are exact multiples of the block size) and a table whose key is all of
+// its columns in another order.
 func Pool(db objects.Store) ([][]byte, error) {
 	var sums [][]byte
 	for v := 0; v < PoolSize; v++ {
 		t := gen.Table{Cols: []string{"id", "v"}, PK: []int{0}}
 		n := 300
+		if v == 7 {
+			// the key names every column, in another order than the columns
+			t.PK = []int{1, 0}
+		}
 		if v == 5 {
 			n = 255
 		} else if v == 6 {
